@@ -6,6 +6,7 @@ CONSTANTS
     Tier = "quick"
     NanRule = "notconverged"
     FluxRule = "segment"
+    ScanNorm = "asked"
     Reporter = "contract"
     EmitOn = FALSE
 INIT Init
